@@ -116,6 +116,62 @@ def find_cache_stores(ctx, eff, rep, region, table_vars, rule):
     return whitelisted
 
 
+def check_read_through(ctx, eff, rep, region, rule="H3"):
+    """A dict that translation code fills while it runs may be observed half-filled by a concurrent call.  That is
+    harmless only for a read-through cache: every function of the regions that looks a key up in it also stores that
+    same key when it misses (so a miss costs a recomputation, never a different answer), and nobody looks at the dict
+    as a whole (emptiness, length, iteration, aliasing)."""
+    pt = ctx.pt
+    targets = {}
+    for q, r in symbol_cache_writes(ctx, eff, region):
+        if r.op != "store-sub":
+            continue
+        for t in r.targets:
+            if eff.is_shared_target(t) and isinstance(t, tuple) and t[0] == "alloc" and pt.objs[t].kind == "dict":
+                targets.setdefault(t, []).append((q, r))
+    n = 0
+    for t, recs in targets.items():
+        names = {(scope[4:], name) for (scope, name), ids in pt.var.items() if scope.startswith("mod:") and t in ids}
+        if not names:
+            continue
+        for q in sorted(region):
+            g = ctx.db.funcs[q]
+            uses = []
+            parents = {}
+            for nd in ast.walk(g.node):
+                for c in ast.iter_child_nodes(nd):
+                    parents[id(c)] = nd
+            for nd in ast.walk(g.node):
+                if isinstance(nd, ast.Name) and isinstance(nd.ctx, ast.Load) and nd.id not in g.locals:
+                    r_ = ctx.db.resolve_dotted(g.module, nd)
+                    if r_ and r_[0] == "global" and (r_[1], r_[2]) in names:
+                        uses.append((nd, parents.get(id(nd))))
+            if not uses:
+                continue
+            reads, stores, whole = [], [], []
+            for nd, p in uses:
+                if isinstance(p, ast.Subscript) and p.value is nd:
+                    (stores if isinstance(p.ctx, ast.Store) else reads).append((unparse(p.slice), p))
+                elif isinstance(p, ast.Compare) and nd in p.comparators and isinstance(p.ops[0], (ast.In, ast.NotIn)):
+                    reads.append((unparse(p.left), p))
+                elif isinstance(p, ast.Attribute) and p.attr == "get" and isinstance(parents.get(id(p)), ast.Call) and parents[id(p)].args:
+                    reads.append((unparse(parents[id(p)].args[0]), p))
+                else:
+                    whole.append((nd, p))
+            n += 1
+            skeys = {k for k, _ in stores}
+            probs = []
+            for k, p in reads:
+                if k not in skeys:
+                    probs.append("%s looks up key %s but never fills it: a miss during another call's fill gives a different answer" % (g.name, k))
+            for nd, p in whole:
+                probs.append("%s uses the dict as a whole (%s): a half-filled dict is observable" % (g.name, unparse(p)[:40] if p is not None else nd.id))
+            rep.ob(rule, not probs, uses[0][0], g, construct="uses of the run-time filled dict %s in %s" % (sorted(nm for _m, nm in names), g.name),
+                   how="read-through: every key looked up is stored by the same function on a miss; no whole-dict observation",
+                   witness="; ".join(sorted(set(probs))[:3]) or None, nontrivial=True, key="read-through/%s/%s" % (g.name, "ok" if not probs else "bad"))
+    return n
+
+
 def scan_mutations(ctx, eff, rep, region, whitelisted, rule):
     pt = ctx.pt
     n_sites = 0
@@ -200,6 +256,7 @@ def run(ctx, rep):
     if len(region) < 50:
         raise AnalysisError("translation regions unexpectedly small (%d functions)" % len(region))
     whitelisted = find_cache_stores(ctx, eff, rep, region, table_vars, "H3")
+    check_read_through(ctx, eff, rep, region, "H3")
     n_sites = scan_mutations(ctx, eff, rep, region, whitelisted, "H1")
     rep.floor("H1", 40, "mutation sites in the translation regions")
     scan_global_rebinds(ctx, eff, rep, region, "H5")
